@@ -19,6 +19,15 @@ namespace vs {
 constexpr long FID_ASSIGN = 900;
 constexpr long FID_COPY = 901;
 
+// WSrc: the caller's own object in `wrapper = lvalue;` (operator= / store from a non-const lvalue).  Assigning
+// from it is user code like every WPay assignment (K_CALL 900, write window on the target); copying leaves it
+// intact, MOVING from it steals the value and marks it (moved, v = -7) - a forwarding operator= never does that
+// to an lvalue.  The source itself is read silently, so `w = src` and `w = WPay(v)` produce the same events.
+struct WSrc {
+    long v = 0;
+    bool moved = false;
+};
+
 struct WPay: VPay {
     WPay() = default;
     WPay(long x): VPay(x) {}  // NOLINT
@@ -36,5 +45,29 @@ struct WPay: VPay {
         VPay::operator=(static_cast<VPay&&>(o));
         return *this;
     }
+    WPay& operator=(const WSrc& s)
+    {
+        user_call(FID_ASSIGN);
+        write(s.v);
+        return *this;
+    }
+    WPay& operator=(WSrc&& s)
+    {
+        user_call(FID_ASSIGN);
+        write(s.v);
+        s.moved = true;
+        s.v = -7;
+        return *this;
+    }
 };
+
+// TPay: a trivially copyable payload whose equality is NOT bitwise: operator== compares v only, the driver
+// varies tag.  Its accesses are invisible like those of a plain long (payload kind 2, a plain kind for the model).
+struct TPay {
+    long v;
+    long tag;
+    bool operator==(const TPay& o) const { return v == o.v; }
+    bool operator!=(const TPay& o) const { return v != o.v; }
+};
+static_assert(std::is_trivially_copyable<TPay>::value, "TPay must be trivially copyable");
 }  // namespace vs
